@@ -75,6 +75,25 @@ template<typename Src, typename Dst> static std::string rcast(bool vol, const st
 }
 static tainted<long, SbxA> g_cb_val;
 static rlbox::tainted_opaque<long, SbxA> cb_opq(Sb&, rlbox::tainted_opaque<long, SbxA> a) { (void)a; return g_cb_val.to_opaque(); }
+// floating-point opaque values through a callback: parameter and result travel in floating-point registers, so the wrapper must
+// stay a plain aggregate of ONE member of type T (same calling convention as tainted<T>)
+static double g_cb_seen_d; static double g_cb_val_d;
+static rlbox::tainted_opaque<double, SbxA> cb_opq_d(Sb&, rlbox::tainted_opaque<double, SbxA> a)
+{
+  g_cb_seen_d = rlbox::from_opaque(a).UNSAFE_unverified();
+  tainted<double, SbxA> r = g_cb_val_d;
+  return r.to_opaque();
+}
+static double g_guest_got_d;
+static double gl_callcb_d(uint32_t cb, double x) { g_guest_got_d = SbxA::thread_data.sandbox->guest_call_fnptr<double, double>(cb, x); return g_guest_got_d; }
+static float g_cb_seen_f;
+static rlbox::tainted_opaque<float, SbxA> cb_opq_f(Sb&, rlbox::tainted_opaque<float, SbxA> a)
+{
+  g_cb_seen_f = rlbox::from_opaque(a).UNSAFE_unverified();
+  tainted<float, SbxA> r = (float)g_cb_val_d;
+  return r.to_opaque();
+}
+static float gl_callcb_f(uint32_t cb, float x) { return SbxA::thread_data.sandbox->guest_call_fnptr<float, float>(cb, x); }
 static int32_t g_seen_ret;
 static int32_t gl_callcb(uint32_t cb, int32_t x) { g_seen_ret = SbxA::thread_data.sandbox->guest_call_fnptr<int32_t, int32_t>(cb, x); return g_seen_ret; }
 
@@ -83,7 +102,8 @@ static int32_t gl_see(int32_t x) { g_seen_ret = x; return x; }
 int main()
 {
   fill_all(std::make_index_sequence<NT>());
-  g_sb.create_sandbox(); g_sb1.create_sandbox();
+  static vsbx::Library lib("libcasts", { { "gl_see", (void*)&gl_see }, { "gl_callcb", (void*)&gl_callcb } });
+  g_sb.create_sandbox(&lib); g_sb1.create_sandbox();
   main_loop([&](const std::vector<std::string>& t) -> std::string {
     return guarded([&]() -> std::string {
       auto ty = [&](const std::string& n) { for (size_t i = 0; i < NT; i++) if (n == Names[i]) return (int)i; return -1; };
@@ -147,6 +167,28 @@ int main()
         };
         std::string a = one(x), b = one(x.to_opaque());
         return "ok tainted=" + a + " opaque=" + b;
+      }
+      if (t[0] == "cbopqd" && t.size() == 3) {     // cbopqd <arg> <ret>: integral values carried in double / float opaques
+        long a = (long)parse_dec(t[1]), rv = (long)parse_dec(t[2]);
+        g_cb_val_d = (double)rv; g_cb_seen_d = -12345.0; g_cb_seen_f = -12345.0f;
+        auto cb = g_sb.register_callback(cb_opq_d);
+        using F = double (*)(double);
+        auto r = g_sb.INTERNAL_invoke_with_func_ptr<double(F, double)>("gl_callcb_d", reinterpret_cast<void*>(&gl_callcb_d), cb, (double)a);
+        auto cbf = g_sb.register_callback(cb_opq_f);
+        using FF = float (*)(float);
+        auto rf = g_sb.INTERNAL_invoke_with_func_ptr<float(FF, float)>("gl_callcb_f", reinterpret_cast<void*>(&gl_callcb_f), cbf, (float)a);
+        return "ok seen=" + std::to_string((long)g_cb_seen_d) + " ret=" + std::to_string((long)r.UNSAFE_unverified()) +
+               " seenf=" + std::to_string((long)g_cb_seen_f) + " retf=" + std::to_string((long)rf.UNSAFE_unverified());
+      }
+      if (t[0] == "rcastfn" && t.size() == 3) {     // rcastfn <tainted|tvol> <name>: a function address reinterpreted as void*
+        using Fn = int(int);
+        bool vol = t[1] == "tvol";
+        tainted<Fn*, SbxA> f = g_sb.INTERNAL_get_sandbox_function_name<Fn>(t[2].c_str());
+        const void* want = reinterpret_cast<const void*>(f.UNSAFE_unverified());
+        const void* got;
+        if (vol) { auto cell = g_sb.malloc_in_sandbox<Fn*>(); *cell = f; got = rlbox::sandbox_reinterpret_cast<void*>(*cell).UNSAFE_unverified(); }
+        else got = rlbox::sandbox_reinterpret_cast<void*>(f).UNSAFE_unverified();
+        return std::string("ok same=") + (got == want && want != nullptr ? "1" : "0");
       }
       if (t[0] == "cbopq" && t.size() == 2) {
         i128 v = parse_dec(t[1]);
